@@ -9,7 +9,7 @@ EXPLANATION = ("Encoders: every `From<X> for RawControl` / `From<X> for Exop` is
                "5805, 3296, 3062, 4532, 4511, draft relax); CriticalControl sets criticality on the wrapped control's own encoding. "
                "Decoders: PagedResults, SyncState, SyncDone, parse_syncinfo, ReadEntryResp, PasswordModifyResp, WhoAmIResp, StartTxnResp - "
                "which child ordinal / tag feeds which field, required class/tag checks, the EntryState and SyncInfo choice tables and the "
-               "RFC 4533 defaults (refreshDone TRUE, refreshDeletes FALSE). Integer fields of response values (PagedResults size, the SyncState ENUMERATED): the decoder is interpreted with the component's content octets fixed to literal strings of every length 0..12 (distinct, high-bit, all-ones, zero-padded) and the field must be the big-endian value modulo the cast to the field's type - whichever function reads the octets (parse_uint, a local helper, a loop in place). Y.opaque-octets-total: a component its RFC defines as opaque octets (transaction identifier, generated password, cookies, UUIDs) is decoded by a total function - a decoder that applies a UTF-8 test has a returning path for the test failing. Y.optional-absent: for every OPTIONAL / DEFAULT component of a response value's RFC shape the decoder has a returning path on which the cursor read at that position was not taken to have yielded an element (a read whose None flows into expect / unwrap leaves no such path). Envelope (Z13/Z14 encoder, Z.* decoder; the same rule functions as C02 S13/S14 and C03 T3): for every member of the partition control list Some / None x criticality true / false x value Some / None a control list is encoded as [0]{SEQ{OCTET type, BOOLEAN TRUE only-if critical, OCTET value only-if present}*} and decoded per control in *any* position of the list (loop-carried state included) as child 0 -> type, BOOLEAN -> criticality = content != 0, absent criticality -> false, absent value -> None. "
+               "RFC 4533 defaults (refreshDone TRUE, refreshDeletes FALSE). Integer fields of response values (PagedResults size, the SyncState ENUMERATED): the decoder is interpreted with the component's content octets fixed to literal strings of every length 0..12 (distinct, high-bit, all-ones, zero-padded) and the field must be the big-endian value modulo the cast to the field's type - whichever function reads the octets (parse_uint, a local helper, a loop in place). Y.opaque-octets-total: a component its RFC defines as opaque octets (transaction identifier, generated password, cookies, UUIDs) is decoded by a total function - a decoder that applies a UTF-8 test has a returning path for the test failing. Y.optional-absent: for every OPTIONAL / DEFAULT component of a response value's RFC shape the decoder has a returning path on which the cursor read at that position was not taken to have yielded an element (a read whose None flows into expect / unwrap leaves no such path). Envelope (Z13/Z14 encoder, Z.* decoder; the same rule functions as C02 S13/S14 and C03 T3): for every member of the partition control list Some / None x criticality true / false x value Some / None a control list is encoded as [0]{SEQ{OCTET type, BOOLEAN TRUE only-if critical, OCTET value only-if present}*} and the list decoder, interpreted exactly on every literal list of 0..3 controls over the ways the two optional components can be written (C03 T3), returns one entry per element in the order of the elements (a control list survives the envelope unchanged: same controls, same order), each with its own element's type, criticality = content octet != 0 (absent: false) and value (absent: None). "
                "Not decided: byte-level equality of arbitrary cookies; lber's serialisation (C07).")
 TRUSTED = ['lber serialisation of a shape (C07)', 'RFC tables transcribed in this module']
 UNDECIDED = ['byte-level equality of arbitrary field contents', 'EndTxnResp (not in the property\'s list of response values)']
